@@ -142,6 +142,18 @@ def r7_2_3(ctx: Ctx, f: Func):
     ok = len(augs) == 1 and norm(augs[0].target.slice) == idx_p and norm(augs[0].value) == dis_p
     ctx.ob("R7.2", f, augs[0] if augs else "displacement", ok,
            "the chosen atom is displaced exactly once, by the requested (or drawn) vector", node=augs[0] if augs else f.node)
+    # the requested atom / displacement are used when given: the random draws sit under `<param> is None`
+    pmf = parents_map(f.node)
+    for pname, callee in ((idx_p, "randint"), (dis_p, "find_atom_random_displ")):
+        draws = [s_ for s_ in walk_no_nested(f.node) if isinstance(s_, ast.Assign) and norm(s_.targets[0]) == pname
+                 and isinstance(s_.value, ast.Call) and call_name(s_.value) == callee]
+        okg = bool(draws)
+        for d_ in draws:
+            gs = guards_of(d_, pmf)
+            okg = okg and len(gs) == 1 and ((norm(gs[0][0]) == "%s is None" % pname and gs[0][1]) or
+                                            (norm(gs[0][0]) == "%s is not None" % pname and not gs[0][1]))
+        ctx.ob("R7.2", f, draws[0] if draws else "default for `%s`" % pname, okg,
+               "`%s` is drawn at random only when the caller did not supply it" % pname, node=draws[0] if draws else f.node)
     # any write to the moved atom's row inside the traversal would displace it again: excluded by R7.3 (visited)
     # marking: either removal from an 'unvisited' container or insertion into a 'visited' one
     def marks(stmt, who: str) -> Optional[str]:
@@ -226,79 +238,115 @@ def r7_5(ctx: Ctx, f: Func, rule="R7.5"):
             break
         if isinstance(s, ast.Assign) and isinstance(s.targets[0], ast.Name):
             env[s.targets[0].id] = s.value
+    from ..poly import Rat
     m, b = Poly.sym("m"), Poly.sym("b")
-    # separation vector and its sign
+    rowp, rowc = "%s[%s]" % (arr, par), "%s[%s]" % (arr, child)
+    # separation vector and its sign; any other combination of the two rows is not a separation
     sep_names: Dict[str, int] = {}
     for k, v in env.items():
-        if isinstance(v, ast.BinOp) and isinstance(v.op, ast.Sub):
-            l, r = norm(v.left), norm(v.right)
-            if l == "%s[%s]" % (arr, par) and r == "%s[%s]" % (arr, child):
-                sep_names[k] = 1
-            elif l == "%s[%s]" % (arr, child) and r == "%s[%s]" % (arr, par):
-                sep_names[k] = -1
+        if isinstance(v, ast.BinOp) and {norm(v.left), norm(v.right)} == {rowp, rowc}:
+            if isinstance(v.op, ast.Sub):
+                sep_names[k] = 1 if norm(v.left) == rowp else -1
+            else:
+                ctx.ob(rule, f, "%s = %s" % (k, norm(v)), False,
+                       "the vector along which the reached atom is pulled is the difference of the two atoms' "
+                       "positions -- `%s` is not a difference" % norm(v), node=v)
+                return
     norm_names = {}
     for k, v in env.items():
         a = _is_norm_call(v)
         if a is not None and norm(a) in sep_names:
             norm_names[k] = norm(a)
-    unit_names: Dict[str, int] = {}
-    for k, v in env.items():
-        if isinstance(v, ast.BinOp) and isinstance(v.op, ast.Div) and norm(v.left) in sep_names and \
-                (norm(v.right) in norm_names and norm_names[norm(v.right)] == norm(v.left)
-                 or (_is_norm_call(v.right) is not None and norm(_is_norm_call(v.right)) == norm(v.left))):
-            unit_names[k] = sep_names[norm(v.left)]
 
-    def leaf(e):
+    def scalar(e) -> Optional[Rat]:
+        """Scalar expression in the separation's length m and the tabulated length b."""
         if isinstance(e, ast.Name) and e.id in norm_names:
-            return m
+            return Rat(m)
         if isinstance(e, ast.Name) and e.id == blen:
-            return b
+            return Rat(b)
         a = _is_norm_call(e)
         if a is not None and norm(a) in sep_names:
-            return m
+            return Rat(m)
+        if isinstance(e, ast.Name) and e.id in env and e.id not in sep_names:
+            return scalar(env[e.id])
+        if isinstance(e, ast.Constant) and isinstance(e.value, (int, float)) and not isinstance(e.value, bool):
+            from fractions import Fraction
+            return Rat(Poly.const(Fraction(e.value).limit_denominator(10 ** 9)))
+        if isinstance(e, ast.UnaryOp) and isinstance(e.op, ast.USub):
+            x = scalar(e.operand)
+            return -x if x is not None else None
+        if isinstance(e, ast.BinOp):
+            x, y = scalar(e.left), scalar(e.right)
+            if x is None or y is None:
+                return None
+            if isinstance(e.op, ast.Add):
+                return x + y
+            if isinstance(e.op, ast.Sub):
+                return x - y
+            if isinstance(e.op, ast.Mult):
+                return x * y
+            if isinstance(e.op, ast.Div):
+                return x / y
         return None
 
-    def coeff(e) -> Optional[Tuple[Poly, int]]:
-        """(K, s): e == K * u with u the unit separation of sign s."""
-        if isinstance(e, ast.Name) and e.id in unit_names:
-            return Poly.const(1), unit_names[e.id]
+    def coeff(e):
+        """(K, s): e == K * u, u = unit vector along s*(parent - child); K a rational function of m, b."""
+        if isinstance(e, ast.Name) and e.id in sep_names:
+            return Rat(m), sep_names[e.id]
         if isinstance(e, ast.Name) and e.id in env:
             return coeff(env[e.id])
-        if isinstance(e, ast.BinOp) and isinstance(e.op, ast.Div) and norm(e.left) in sep_names:
-            dn = poly_of(e.right, leaf)
-            if dn is not None and dn == m:
-                return Poly.const(1), sep_names[norm(e.left)]
-        if isinstance(e, ast.BinOp) and isinstance(e.op, ast.Mult):
-            for x, y in ((e.left, e.right), (e.right, e.left)):
-                c = coeff(y)
-                k = poly_of(x, leaf)
-                if c is not None and k is not None:
-                    return k * c[0], c[1]
         if isinstance(e, ast.UnaryOp) and isinstance(e.op, ast.USub):
             c = coeff(e.operand)
-            if c:
-                return -c[0], c[1]
+            return (-c[0], c[1]) if c else None
+        if isinstance(e, ast.BinOp) and isinstance(e.op, ast.Mult):
+            for x, y in ((e.left, e.right), (e.right, e.left)):
+                c, k = coeff(y), scalar(x)
+                if c is not None and k is not None:
+                    return k * c[0], c[1]
+        if isinstance(e, ast.BinOp) and isinstance(e.op, ast.Div):
+            c, k = coeff(e.left), scalar(e.right)
+            if c is not None and k is not None:
+                return c[0] / k, c[1]
         return None
-    # child' = child + K u   (or -)
+    # child' = alpha*parent_row + beta*child_row + K u   with (alpha, beta) = (0, 1) or (1, 0)
     if isinstance(st, ast.Assign):
         v = st.value
-        base_ok = isinstance(v, ast.BinOp) and isinstance(v.op, (ast.Add, ast.Sub)) and norm(v.left) == "%s[%s]" % (arr, child)
-        c = coeff(v.right) if base_ok else None
-        sign = 1 if base_ok and isinstance(v.op, ast.Add) else -1
+        base = None
+        c = None
+        sign = 1
+        if isinstance(v, ast.BinOp) and isinstance(v.op, (ast.Add, ast.Sub)):
+            if norm(v.left) in (rowc, rowp):
+                base, c, sign = norm(v.left), coeff(v.right), (1 if isinstance(v.op, ast.Add) else -1)
+            elif norm(v.right) in (rowc, rowp) and isinstance(v.op, ast.Add):
+                base, c = norm(v.right), coeff(v.left)
     else:
-        c = coeff(st.value)
-        base_ok = isinstance(st.op, (ast.Add, ast.Sub))
-        sign = 1 if isinstance(st.op, ast.Add) else -1
-    if not base_ok or c is None:
-        ctx.ob(rule, f, st, True, "update of the reached atom is not of the form child + k * unit(separation); "
+        base, c = rowc, coeff(st.value)
+        sign = 1 if isinstance(st.op, ast.Add) else (-1 if isinstance(st.op, ast.Sub) else 0)
+    if base is not None and c is None:
+        # a separation-derived vector in a denominator / under a non-linear operation is never k * u
+        term = st.value if not isinstance(st, ast.Assign) else (st.value.right if norm(st.value.left) in (rowc, rowp) else st.value.left)
+        vec_names = set(sep_names) | {k for k, v in env.items() if coeff(ast.Name(k, ast.Load())) is not None}
+        for n_ in ast.walk(term):
+            if isinstance(n_, ast.BinOp) and isinstance(n_.op, (ast.Div, ast.Pow, ast.FloorDiv, ast.Mod)) \
+                    and any(isinstance(x, ast.Name) and x.id in vec_names for x in ast.walk(n_.right)):
+                ctx.ob(rule, f, st, False, "the reached atom is moved along the bond direction by a scalar amount -- "
+                       "`%s` divides by / exponentiates with the direction vector" % norm(n_), node=st)
+                return
+    if base is None or c is None or sign == 0:
+        ctx.ob(rule, f, st, True, "update of the reached atom is not of the form row + k * (separation direction); "
                "pull length not decided on this tree", undecided=True, node=st)
         return
-    K, s = c[0] * sign, c[1]
-    resid = (Poly.const(s) * m - K) ** 2 - b ** 2
-    ok = resid.is_zero()
+    K, s = c[0] * Rat(Poly.const(sign)), c[1]
+    if base == rowc:
+        new_sep = Rat(Poly.const(s)) * Rat(m) - K        # (parent - child) - K u
+    else:
+        new_sep = -K                                     # parent - (parent + K u)
+    resid = new_sep * new_sep - Rat(b) * Rat(b)
+    ok = resid.n.is_zero()
     ctx.ob(rule, f, st, ok,
-           "after the update the bond (parent, child) has the tabulated length: (s*m - k)^2 - b^2 reduces to 0 "
-           "with s=%+d, k=%r" % (s, K) + ("" if ok else " -- residual %r: the new length is |%r|, not b" % (resid, Poly.const(s) * m - K)),
+           "after the update the bond (parent, child) has the tabulated length: with separation sign s=%+d and the "
+           "update %s + (%r) u the new separation is (%r) u, whose square must reduce to b^2" % (s, "child" if base == rowc else "parent", K, new_sep)
+           + ("" if ok else " -- it does not: the new length is |%r|, not b" % (new_sep,)),
            node=st, separation_sign=s, k=repr(K))
     # the separation is read before the store (same iteration) - by construction of env (statements before st)
     # the tabulated length comes from the bond table entry of (parent -> child)
@@ -351,20 +399,30 @@ def r7_4(ctx: Ctx, g: Func, f: Func, rule="R7.4"):
     dirvar = None
     for s in crosses:
         gs = guards_of(s, pm)
-        k = None
-        for t, pol in gs:
-            if isinstance(t, ast.Compare) and norm(t.left) == cnt and pol:
-                v = const_int(t.comparators[0])
-                if isinstance(t.ops[0], ast.Eq):
-                    k = v
-                elif isinstance(t.ops[0], ast.GtE) and v == 3 or isinstance(t.ops[0], ast.Gt) and v == 2:
-                    k = 3
-        if k is None and not gs:
+        # which neighbour counts reach this statement?  evaluate the guards for n = 1..6
+        counts = []
+        for n_ in range(1, 7):
+            reach = True
+            for t, pol in gs:
+                if isinstance(t, ast.Compare) and norm(t.left) == cnt and len(t.ops) == 1 and const_int(t.comparators[0]) is not None:
+                    v = const_int(t.comparators[0])
+                    val = {ast.Eq: n_ == v, ast.NotEq: n_ != v, ast.Gt: n_ > v, ast.GtE: n_ >= v,
+                           ast.Lt: n_ < v, ast.LtE: n_ <= v}.get(type(t.ops[0]))
+                    if val is None or val != pol:
+                        reach = False
+                else:
+                    reach = False
+            if reach:
+                counts.append(n_)
+        if not gs or not counts:
             continue
+        k = 3 if min(counts) >= 3 else (counts[0] if len(counts) == 1 else None)
         if k is None:
-            # else-branch of the chain: three or more
-            k = 3
-        seen.add(k)
+            ctx.ob(rule, g, s, False, "each neighbour-count case has its own construction -- this one is used for counts %s" % counts, node=s)
+            continue
+        seen.update(min(c_, 3) for c_ in counts if c_ <= 3 or k == 3)
+        if k == 3 and counts != [3, 4, 5, 6]:
+            ctx.ob(rule, g, s, False, "the three-or-more case covers every count >= 3 -- it covers %s" % counts, node=s)
         dirvar = norm(s.targets[0])
         keys = [diff_key(a) for a in s.value.args]
         have = [x for x in keys if x is not None]
